@@ -391,6 +391,54 @@ def r2_implicit(ctx):
             if isinstance(c.func, ast.Attribute) and isinstance(c.func.value, ast.Call) and A.call_target(c.func.value)[1] in ('get_child_node_by_idx', 'get_child_node_by_ordinal'):
                 ok = _index_bounded(f, c.func.value)
                 yield Ob(km('(e) %s:%s %s' % (mod, qual, norm(c, 60))), ok, ctx.floc(f, c), '' if ok else 'chained use of a lookup that may return None')
+    # (h) integer formatting of a value that may be None (result of X12Base._int)
+    import re as _re
+    for q, f in ctx.functions('x12file'):
+        maynone = {path_of(st.targets[0]) for st in ast.walk(f) if isinstance(st, ast.Assign) and isinstance(st.value, ast.Call)
+                   and A.call_target(st.value) == ('self', '_int')}
+        maynone.discard(None)
+        if not maynone:
+            continue
+        f._qual, f._mod = q, ctx.mod('x12file')
+        g = ctx.cfg(f)
+        IN = must_facts(g)
+        for nd in g.nodes:
+            for x in g.walk_exprs(nd):
+                args = []
+                if isinstance(x, ast.Call) and isinstance(x.func, ast.Attribute) and x.func.attr == 'format' and A.is_str(x.func.value):
+                    specs = _re.findall(r'\{[^{}:]*(?::([^{}]*))?\}', x.func.value.value)
+                    args = [(a, sp) for a, sp in zip(x.args, specs)]
+                elif isinstance(x, ast.BinOp) and isinstance(x.op, ast.Mod) and A.is_str(x.left):
+                    specs = [sp for sp in _re.findall(r'%[-0-9.]*([a-zA-Z%])', x.left.value) if sp != '%']
+                    vals = list(x.right.elts) if isinstance(x.right, ast.Tuple) else [x.right]
+                    args = list(zip(vals, specs))
+                for a, sp in args:
+                    if path_of(a) in maynone and sp and sp[-1:] in ('d', 'i', 'x', 'f'):
+                        ok = has(IN[nd.id], 'NotNone', path_of(a))
+                        yield Ob(km('(h) x12file:%s integer format of %s' % (q, path_of(a))), ok, ctx.floc(f, x),
+                                 '' if ok else '%s comes from _int() and is None for a non-numeric value: formatting it with :%s raises TypeError' % (path_of(a), sp))
+    # (i) parameters that callers pass as None must not be dereferenced while None (abstract interpretation over usage x None)
+    from .. import absint
+    for qual, param in (('composite_if.is_valid', 'comp_data'), ('element_if.is_valid', 'elem')):
+        f = ctx.func('map_if', qual)
+        passes_none = any(A.call_target(c)[1] == 'is_valid' and c.args and isinstance(c.args[0], ast.Constant) and c.args[0].value is None
+                          for q2, f2 in ctx.functions('map_if') for c in A.calls_in(f2))
+        if not passes_none:
+            raise AnalysisError('no caller passes None to is_valid any more: rule (i) needs re-derivation')
+        g = ctx.cfg(f)
+        for usage in ('R', 'S', 'N'):
+            hits = []
+
+            def on_node(nd, env, hits=hits):
+                if env.get(param, 0) is None:
+                    for x in absint.derefs_of(g, nd, param):
+                        hits.append((nd, x))
+            absint.explore(g, {param: None, 'self.usage': usage}, on_node=on_node)
+            ok = not hits
+            yield Ob(km('(i) map_if:%s(%s=None) with usage %s dereferences nothing' % (qual, param, usage)), ok,
+                     ctx.floc(f, hits[0][1]) if hits else ctx.floc(f),
+                     '' if ok else '`%s` is evaluated while %s is None (a segment that ends before this %s): TypeError/AttributeError aborts validation'
+                     % (norm(hits[0][1]), param, 'composite' if 'composite' in qual else 'element'))
     # (f) self-method resolution on the path
     nf = 0
     for mod in ('x12n_document', 'x12file', 'rawx12file', 'map_walker', 'map_if', 'error_handler', 'error_html', 'x12xml_simple', 'x12xml', 'x12context', 'segment',
@@ -462,7 +510,6 @@ def _established_by_protocol(fname, p):
         ('close_gs_loop', 'self.cur_gs_node'): 'a GE node is only found inside GS_LOOP, entered through a GS whose branch called add_gs_loop',
         ('close_st_loop', 'self.cur_st_node'): 'an SE node is only found inside ST_LOOP, entered through an ST whose branch called add_st_loop',
         ('add_st_loop', 'self.cur_gs_node'): 'an ST node is only found inside GS_LOOP, entered through a GS whose branch called add_gs_loop',
-        ('_add_cur_seg', 'self.cur_st_node'): 'seg_node_added is False only after add_seg, which x12n_document calls for segments located below ST_LOOP',
         ('_add_cur_seg', 'self.cur_seg_node'): 'appended only after add_seg created it',
         ('_add_cur_ele', 'self.cur_seg_node'): 'tested for None in the same condition',
     }
